@@ -286,6 +286,7 @@ package types
 //@   ensures evType(result) == "akash.v1" && carriesHead(evAttrs(result), "group-started") && carriesGID(evAttrs(result), ev.ID)
 // every event this module emits parses back to the typed event that was emitted
 //@ func ParseEvent
+//@   ensures [foreign] ev.Type != "akash.v1" || ev.Module != "deployment" ==> result1 != nil
 //@   ensures [created] forall id: DeploymentID, v: str {validBech32(id.Owner), hexEnc(v)} :: ev.Type == "akash.v1" && ev.Module == "deployment" && ev.Action == "deployment-created" && old(carriesDID(ev.Attributes, id))
 //@        && canonicalAddr(id.Owner) && old(attrHas(ev.Attributes, "version") && attrVal(ev.Attributes, "version") == hexEnc(v)) ==>
 //@        result1 == nil && typeis(result0, EventDeploymentCreated) && unbox(result0, EventDeploymentCreated).ID == id && unbox(result0, EventDeploymentCreated).Version == v
